@@ -129,6 +129,10 @@ def _slice_call(b, t, iv, st):
         if kind == "RangeFull":
             return "full range"
         return None
+    if name in ("chunks", "chunks_exact", "windows", "rchunks", "chunks_mut", "chunks_exact_mut") and len(t.args) == 2:
+        r = iv.rng(st, t.args[1])
+        if r is not None and r[0] >= 1:
+            return f"chunk size in [{r[0]}, {r[1]}] is never 0"
     if name in ("split_at", "split_at_mut") and len(t.args) == 2:
         lt, lr = iv.slice_len(st, t.args[0], atys[0] if atys else None)
         if iv.le_len(st, t.args[1], lt, lr):
